@@ -544,7 +544,9 @@ def run_all(ctx, tier, seed, env):
             if 2 <= nd and len(data) < 200: break
         bases.append(dict(fmt="mm", t=t, data=data, ndata=nd, ranges=[(-1, -1)]))
     for (op, payload, data, t) in pick(mmd, small_dense, n_mmd):
-        bases.append(dict(fmt="mmd", t=t, data=data, ndata=1, ranges=[(-1, -1)]))
+        # partial row ranges of a dense file (what every rank but the last one does in a distributed load): the rows outside the
+        # range are skipped line by line, and a file that lost its last line must still be refused (seeded C19-6)
+        bases.append(dict(fmt="mmd", t=t, data=data, ndata=1, ranges=[(-1, -1), (0, 1), (1, 1), (1, -1)]))
     for k, (op, payload, data, t) in enumerate(pick(bnw, small_sparse, n_bin)):
         bases.append(dict(fmt="bin", t=t, data=data, sg=("s" if k % 2 else "u"), ranges=[(-1, -1), (1, -1)]))
     for (op, payload, data, t) in pick(bnd, small_dense, n_bind):
